@@ -16,7 +16,7 @@ EVIDENCE = {
     "rule": "one request per pair of runs: generated Forwarded / X-Forwarded-{For,Host,Proto,Port,By} values (hop lists 0-5, "
             "IPv4/IPv6/port forms, quoting, degenerate elements) x configuration (trusted_proxy None or an address different "
             "from the peer, every allowed trusted_proxy_headers subset, trusted_proxy_count 1-4, clear_untrusted_proxy_headers "
-            "on/off) x peer address; the same seed is run twice in the simulator - with the proxy headers and with them "
+            "on/off; trusted_proxy values incl. the unspecified addresses 0.0.0.0 / :: ) x peer address (TCP peers incl. look-alikes of the trusted address, unix-domain peers); the same seed is run twice in the simulator - with the proxy headers and with them "
             "deleted - and the two environs are compared; one evaluation = one pair; distinct = distinct (configuration, "
             "headers) hash; non-trivial = at least two proxy header kinds were sent",
     "real": common.REAL, "stub": common.STUB,
@@ -29,7 +29,7 @@ EVIDENCE = {
 
 def gen(W):
     sc = {}
-    sc["trusted_proxy"] = W.choice([None, "192.0.2.10", "10.9.9.9"])
+    sc["trusted_proxy"] = W.choice([None, "192.0.2.10", "10.9.9.9", "0.0.0.0", "::", "[::]", "::1"])
     sc["peer"] = W.choice(["203.0.113.5", "192.0.2.11", "10.9.9.90", "127.0.0.1"])
     if sc["trusted_proxy"] and W.chance(0.5):
         # peers that differ from the trusted address by a prefix, a suffix, one character, a mapped form ...
@@ -53,6 +53,10 @@ def gen(W):
     sc["sub_seed"] = W.draw(1 << 30)
     # before the request under test, the trusted proxy itself may have sent a request carrying the same headers
     sc["trusted_prelude"] = bool(sc["trusted_proxy"]) and W.chance(0.35)
+    # a unix-domain listener: every peer is reported as 'localhost', which is not the configured proxy either
+    sc["unix"] = W.chance(0.15)
+    if sc["unix"]:
+        sc["trusted_prelude"] = False
     return sc
 
 
@@ -65,7 +69,10 @@ def one(sc, with_headers):
         knobs["trusted_proxy_count"] = sc["count"]
         if sc["tph"]:
             knobs["trusted_proxy_headers"] = set(sc["tph"])
-    sim = Simulation(tapes, knobs=knobs, net=NetConfig(), sched={"kind": "rtb"}, horizon=30.0)
+    unix = bool(sc.get("unix"))
+    if unix:
+        knobs["unix_socket"] = "/tmp/sim-waitress.sock"
+    sim = Simulation(tapes, knobs=knobs, net=NetConfig(), sched={"kind": "rtb"}, unix=unix, horizon=30.0)
     app = ScriptedApp(sim, {}, default={"chunks": [b"ok"], "cl": 2, "keep_environ": True})
     sim.build(app)
     h = [("Host", sc["host"]), ("X-Other", "1")]
@@ -79,7 +86,7 @@ def one(sc, with_headers):
         sim.add_client([("send", build_request("GET", "/prelude", "1.1", hp))], cid=1, addr=(sc["trusted_proxy"], 40999))
         sim.add_client([("send", build_request("GET", "/p", "1.1", h))], cid=0, addr=(sc["peer"], 40123), start=0.05)
     else:
-        sim.add_client([("send", build_request("GET", "/p", "1.1", h))], cid=0, addr=(sc["peer"], 40123))
+        sim.add_client([("send", build_request("GET", "/p", "1.1", h))], cid=0, addr="" if unix else (sc["peer"], 40123))
     sim.run()
     s = sim.conns.get(0)
     mine = [c for c in app.calls if c["path"] == "/p"]
